@@ -521,3 +521,4 @@ RENAME_FUNCS = [(ML, 'Melody.to_sequence'), (DL, 'DrumTrack.to_sequence'), (CL, 
 EXPLANATION += (' Shared with C07: EXTRACT/roll-pitch-range, EXTRACT/roll-gap-index, EXTRACT/velocity-onsets-only. ORIGIN/start-step-once (normal-form coefficient of start_step in a rendered time). EXTRACT/step-order-invariant locates known finding F27.')
 EXPLANATION += (' Round 6: ' + 'PITFALL/previous-wraps and PITFALL/neg-zero-slice over all renderers and extractors; RENDER/note-off-ends-one (the per-pitch list of open onsets is never taken out of the map without storing the remainder back).')
 EXPLANATION += (' Round 7: ' + 'EXTRACT/chord-symbols-all-read; RENDER/melody-note-per-onset; EXTRACT/order-key-on-the-grid (known finding F29).')
+EXPLANATION += (' Rounds 9-10: ' + 'PITFALL/unforwarded-parameter and dead-parameter over the event-sequence classes (shared with C07); EXTRACT/metric-limit reads through nested one-return helpers and is located when the limit does not mention max_shift_quarters.')
